@@ -394,3 +394,56 @@ def run_h(prog, res, floor=4):
                                     "its end and decodes them (a truncated UTF-16 / UTF-32 input yields a bogus extra character)"
                                     % (fn.name, w, fn.txt(inner)[:30], fn.txt(atom)[:40], w - 1), unit=fn.unit.display))
     return stat
+
+
+# ------------------------------------------------------------------ C19.i
+BITS = {"unsigned short": 16, "short": 16, "unsigned char": 8, "char": 8, "signed char": 8}
+
+
+def run_i(prog, res, floor=0, units=None):
+    """a constant that cannot survive the store: an assignment to a variable of an 8- or 16-bit integer type whose
+    right-hand side adds (or ors) a constant >= 2^bits of that type.  The store keeps the low bits only, so the
+    constant is a no-op - the author meant a wider value.  In the UTF-16 decoder this is the supplementary-plane
+    base 0x10000 added into a uint16_t: every character above U+FFFF decodes to its low 16 bits."""
+    units = units or ACCESSOR_UNITS
+    stat = res.stat("C19.i", "assignments to 8/16-bit integer variables in the codec units: no added constant exceeds the variable's range",
+                    floor=floor)
+    for u in prog.units:
+        if u.name not in units:
+            continue
+        for fn in u.functions.values():
+            if not fn.blocks:
+                continue
+            for i, nd in enumerate(fn.nodes):
+                if nd["k"] != "bin" or nd["o"] not in ("=", "+=", "|="):
+                    continue
+                l = fn.strip(nd["c"][0])
+                ln = fn.nodes[l]
+                if ln["k"] != "ref" or "d" not in ln:
+                    continue
+                bits = BITS.get((u.types[fn.vars[ln["d"]]["t"]] or "").replace("const ", "").strip())
+                if not bits:
+                    continue
+                terms, st = [], [nd["c"][1]]
+                while st:
+                    x = fn.strip(st.pop())
+                    xn = fn.nodes[x]
+                    if xn["k"] == "bin" and xn["o"] in ("+", "|"):
+                        st.extend(xn["c"])
+                    else:
+                        terms.append(x)
+                if len(terms) < 2 and nd["o"] == "=":
+                    continue
+                stat.sites += 1
+                stat.obligations += 1
+                big = [t for t in terms if isinstance(fn.const_val(t), int) and fn.nodes[t]["k"] != "ref" and fn.const_val(t) >= (1 << bits)]
+                if not big:
+                    stat.discharged += 1
+                    stat.sample({"function": fn.name, "store": fn.txt(i)[:60], "bits": bits}, limit=4)
+                else:
+                    res.add(Finding("C19", "C19.i.constant-lost-in-narrow-store", fn.name, "%s" % fn.vars[ln["d"]]["n"], fn.where(i),
+                                    "%s adds the constant %#x into `%s`, a %d-bit variable: the store keeps the low %d bits, so the "
+                                    "constant is lost - in the UTF-16 decoder every character above U+FFFF (a surrogate pair) decodes "
+                                    "to its low 16 bits (U+1F600 -> U+F600)"
+                                    % (fn.name, fn.const_val(big[0]), fn.vars[ln["d"]]["n"], bits, bits), unit=fn.unit.display))
+    return stat
